@@ -230,7 +230,22 @@ def ob_potential(mesh, space_spec, kernel_key="laplace_single_layer", kernel="st
                 w = S.find_witness(diff, seed=7)
                 if w is None:
                     return undecided("potential value [%d,%d]: normal form non-zero, no numeric witness" % (d, i))
+                rep = {"confirmed": False, "note": "symbolic counterexample assignment recorded in witness.env"}
+                try:
+                    # native instance of the same contract (real kernel, floats); for the stub-kernel obligations the real kernel of that name stands in
+                    pc = par_case
+                    if pc is None:
+                        from vlib import kernelrun as KR
+
+                        cases = KR.param_cases(kernel_key)
+                        pc = cases[0][0] if cases and cases[0][1] else None
+                    r = replay_potential_instance(mesh, tuple(space_spec), kernel_key, domain_indices, pc)
+                    if r["violates"]:
+                        rep = {"callable": "vlib.potential:replay_potential_instance", "confirmed": True, "result": r,
+                               "kwargs": {"mesh": mesh, "space_spec": list(space_spec), "kernel_key": kernel_key, "domain_indices": domain_indices, "par_case": pc}}
+                except Exception:  # noqa: the replay is best effort; the symbolic refutation stands on its own
+                    pass
                 return violated("potential value at point %d differs from the closed-form kernel sum over the quadrature points (difference %s at the witness)" % (i, w[1]),
                                 witness={"mesh": mesh, "space": list(space_spec), "env": w[0]}, signature="potential/%s/%s/%s%d" % (kernel_key, mesh, space_spec[0], space_spec[1]),
-                                replay={"confirmed": False, "note": "symbolic counterexample assignment recorded in witness.env"})
+                                replay=rep)
     return proved("sym-exec+normal-form", "%d values, %d support elements, %d dofs" % (exp.size, space.number_of_support_elements, space.global_dof_count))
